@@ -58,6 +58,7 @@ class Ctx:
         self.violations = []        # dicts: signature, what, replay
         self.known_hits = []        # known findings met in this run
         self.conformance = []       # model/code conformance failures (not verdicts)
+        self.extensions = []        # observations on behaviour beyond the property's quantifier (tags Ext.*)
         self.n_tlc = 0
 
     def _cleanup(self):
@@ -325,6 +326,9 @@ def finish(ctx, level, coverage, assumptions):
             new.append(v)
     for sig, v in hits.items():
         print("KNOWN-FINDING: property=%s %s (%s)" % (ctx.prop, sig, known[sig].get("what", "")))
+    for x in ctx.extensions:
+        print("EXTENSION-OBSERVATION property=%s %s (%d occurrences; outside the property's quantifier, not a verdict)"
+              % (ctx.prop, x["signature"], x["occurrences"]))
     replay_paths = []
     if new:
         rdir = os.path.join(VERIF, "replays", ctx.prop)
@@ -353,6 +357,7 @@ def finish(ctx, level, coverage, assumptions):
         "violations": len({v["signature"] for v in new}),
         "known_findings_met": list(hits.keys()),
         "model_mismatches": [c["signature"] for c in ctx.conformance],
+        "extension_observations": [{"signature": c["signature"], "occurrences": c["occurrences"]} for c in ctx.extensions],
         "tlc_runs": ctx.tlc_runs,
     }
     evdir = os.environ.get("VERIF_EVIDENCE_DIR") or os.path.join(VERIF, "evidence")
@@ -398,7 +403,10 @@ def add_violations_from_bad(ctx, bad, trace_path, what_prefix="", sig_of=None, r
             "event": read_trace_line(trace_path, first),
             "history": history_before(trace_path, first, reset_event),
         }
-        (ctx.violations if is_verdict else ctx.conformance).append(rec)
+        if sig.startswith("Ext."):
+            ctx.extensions.append(rec)   # informational: outside the listed property's quantifier
+        else:
+            (ctx.violations if is_verdict else ctx.conformance).append(rec)
 
 
 def main(run):
